@@ -237,7 +237,27 @@ CaseOf(c) ==
      expect |-> [ok |-> ref.ok, out |-> ref.out, err |-> ref.err,
                  calls |-> IF "spies" \in DOMAIN c /\ c.spies THEN [id \in {"s1", "s2", "s3"} |-> CountOf(ref.calls, id)] ELSE [id \in {} |-> 0]]]
 
-Init == cs \in {c \in AllCases : Ref(c).err # "frag"}
+\* ---- long loops: the body runs once per element however many there are ------------------------------------------------------
+\* (the expectation is written down: the reference semantics agrees with it for a short loop of the same form, LongAgrees)
+LongNs == {50, 3000, 12000, 40000}
+LongForms == {"lastonly", "count", "nested", "attr"}
+LongCases == {[long |-> n, form |-> f] : n \in LongNs, f \in LongForms}
+LongProg(f, n) ==
+    CASE f = "lastonly" -> <<For1("i", Call("range", <<LI(1), LI(n)>>), <<If1(Bin("==", Var("i"), LI(n)), <<PrintS(Var("i")), Text(<<120>>)>>)>>)>>
+      [] f = "count"    -> <<Set("c", LI(0)), For1("i", Call("range", <<LI(1), LI(n)>>), <<Set("c", Bin("+", Var("c"), LI(1)))>>), PrintS(Var("c")), Text(<<120>>)>>
+      [] f = "nested"   -> <<Set("c", LI(0)), For1("i", Call("range", <<LI(1), LI(n \div 50)>>), <<For1("j", Call("range", <<LI(1), LI(50)>>), <<Set("c", Bin("+", Var("c"), LI(1)))>>)>>),
+                             PrintS(Var("c")), Text(<<120>>)>>
+      [] f = "attr"     -> <<For1("i", Call("range", <<LI(1), LI(n)>>), <<If1(Attr(Var("loop"), "last"), <<PrintS(Attr(Var("loop"), "index")), Text(<<120>>)>>)>>)>>
+LongOut(n) == NatDigits(n) \o <<120>>
+CaseOfLong(c) ==
+    [prop |-> "C09", key |-> ToJson(c), tags |-> {"fam:long", "form:" \o c.form}, entry |-> "main", ctx |-> EmptyFn,
+     runs |-> {[label |-> "long", tp |-> Sources(("main" :> LongProg(c.form, c.long)), LMin), xcalls |-> [id \in {} |-> 0]]},
+     cfg |-> [globals |-> EmptyFn],
+     expect |-> [ok |-> TRUE, out |-> LongOut(c.long), err |-> "", calls |-> [id \in {} |-> 0]]]
+LongAgrees == \A f \in LongForms : LET r == Render(MkW(("main" :> LongProg(f, 50)), {}, {}, NoFault), "main", EmptyFn) IN r.ok /\ r.out = LongOut(50)
+ASSUME LongAgrees
+
+Init == cs \in LongCases \cup {c \in AllCases : Ref(c).err # "frag"}
 Next == UNCHANGED cs
 Spec == Init /\ [][Next]_cs
 
@@ -251,5 +271,5 @@ CounterIdentities ==
         /\ LoopAttr(lp, "last").b = (LoopAttr(lp, "revindex0").i = 0)
 ASSUME CounterIdentities
 
-Emit == PrintT(ToJson(CaseOf(cs)))
+Emit == PrintT(ToJson(IF "long" \in DOMAIN cs THEN CaseOfLong(cs) ELSE CaseOf(cs)))
 =============================================================================
